@@ -273,7 +273,8 @@ def finish(ctx, level="model_checking", rule="", extra_cov=None):
     for v in raw:
         hit = None
         for f in findings:
-            if v["sig"] == f["signature"] or (f.get("signature_prefix") and v["sig"].startswith(f["signature_prefix"])):
+            if v["sig"] == f["signature"] or (f.get("signature_prefix") and v["sig"].startswith(f["signature_prefix"])) \
+                    or (f.get("signature_regex") and re.search(f["signature_regex"], v["sig"])):
                 hit = f
                 break
         if hit:
